@@ -288,7 +288,8 @@ def job_struct(job):
                         continue
                     want = ref.llk(rref, counts, [tuple(x) for x in want_g])
                     got = float(log_likelihood_structural_change(R, ga, ia, iva, C))
-                    got_py = float(log_likelihood_structural_change.py_func(R, ga, ia, iva, C)) if P <= 2 else got
+                    with np.errstate(divide="ignore", invalid="ignore"):  # log(0) of an excluded genotype is the expected -inf, not worth a warning line
+                        got_py = float(log_likelihood_structural_change.py_func(R, ga, ia, iva, C)) if P <= 2 else got
                     direct = float(log_likelihood(R, g2, C))
                     v, cache = log_likelihood_structural_change_cached(R, ga, ia, iva, C, cache)
                     for nm, x in (("jit", got), ("py_func", got_py), ("direct", direct), ("cached", float(v))):
